@@ -74,7 +74,9 @@ class FlatCase:
         cpsx = ", ".join(f'{".".join(q)}: {tyname("DX", q)}' for q in self.nodes)
         if any(m["it"] == "cded" for m in self.ms):
             cps, cpsx = cps + ", zz: ZZ", cpsx + ", zz: ZZ"      # the shadowed default path must still be a declared one (validation looks at every #[child])
-        cp_attr = f"#[child_parents(D| {cps})] #[child_parents(DX| {cpsx})]" if self.nodes else ""
+        # a default #[child_parents] naming types that do not exist is written FIRST: the dedicated ones are the ones that count (C05's rule)
+        dflt = ", ".join(f'{".".join(q)}: Nowhere' for q in self.nodes)
+        cp_attr = f"#[child_parents({dflt})] #[child_parents(D| {cps})] #[child_parents(DX| {cpsx})]" if self.nodes else ""
         gh = ""
         if self.gs:
             gh = "#[ghosts(" + ", ".join(f'{".".join(g["path"])}@g{j}: {{gx({j})}}' for j, g in enumerate(self.gs, 1)) + ")]"
